@@ -2,7 +2,7 @@
 
 1. TLC explores spec/TrustRenew.tla: TRC time lines (rotated root, grace period) x 11 included
    certificate sets (chain under new / old / unknown root, expired, other AS, swapped order, one or
-   three certificates, AS with a foreign CA, two CAs) x 9 signer-info sets (good, none, duplicate,
+   three certificates, AS with a foreign CA, two CAs) x 10 signer-info sets (good, none, duplicate,
    good + CA, CA only, foreign key, signature over another request, another AS's signer, CA key under
    the AS's identifier) x 4 CSRs (good, other ISD-AS, broken self-signature, no ISD-AS), plus
    CAPolicy.CreateChain for signing times and validities around the CA certificate's validity.
